@@ -516,7 +516,7 @@ func c09limits(c *an.Ctx) {
 					if k, isC := an.ConstInt(qv.Y); isC && k == 5 {
 						if sv, ok := qv.X.(*ssa.BinOp); ok && sv.Op == token.SUB {
 							if k2, isC := an.ConstInt(sv.Y); isC && k2 == 4 {
-								if p, ok := sv.X.(*ssa.Parameter); ok && p.Name() == "maxBodySize" {
+								if an.NamedInput(sv.X, "maxBodySize") {
 									okU = true
 								}
 							}
@@ -524,7 +524,7 @@ func c09limits(c *an.Ctx) {
 					}
 				}
 			case strings.HasPrefix(row.upper, "param:"):
-				if p, ok := an.Strip(u.Y).(*ssa.Parameter); ok && p.Name() == row.upper[6:] {
+				if an.NamedInput(u.Y, row.upper[6:]) {
 					okU = true
 				}
 			default:
@@ -551,7 +551,9 @@ func c09limits(c *an.Ctx) {
 	// readMPUB call sites pass (MaxMsgSize, MaxBodySize)
 	for _, fn := range c.P.PkgFuncs("nsqd") {
 		for _, ci := range an.CallsTo(fn, readMPUB) {
-			good := isOptsField(c, ci.Common().Args[3], "nsqd", "MaxMsgSize") && isOptsField(c, ci.Common().Args[4], "nsqd", "MaxBodySize")
+			// positionally or through a parameter object – by the callee's input names
+			mm, mb := an.CallInput(ci, readMPUB, "maxMessageSize"), an.CallInput(ci, readMPUB, "maxBodySize")
+			good := mm != nil && mb != nil && isOptsField(c, mm, "nsqd", "MaxMsgSize") && isOptsField(c, mb, "nsqd", "MaxBodySize")
 			c.Check(good, fn, "readMPUB limits are (MaxMsgSize, MaxBodySize)", ci.Pos(), "", "readMPUB is not given opts.MaxMsgSize and opts.MaxBodySize in that order")
 		}
 	}
@@ -707,37 +709,55 @@ func c09limits(c *an.Ctx) {
 		}
 	}
 	// name rule
-	if fn := c.Fn("internal/protocol", "isValidName"); fn != nil {
+	{
+		// the name predicate: IsValidTopicName / IsValidChannelName decide themselves or forward their argument to a shared
+		// helper (isValidName on the pinned tree); the predicate is checked where it is decided
 		re := c.P.Global("internal/protocol", "validTopicChannelNameRegex")
-		for _, r := range an.Returns(fn) {
-			v := an.Resolve(r.Results[0])
-			if k, ok := v.(*ssa.Const); ok && k.Value != nil && k.Value.String() == "false" {
+		deciders := map[*ssa.Function]bool{}
+		for _, w := range []string{"IsValidTopicName", "IsValidChannelName"} {
+			wf := c.Fn("internal/protocol", w)
+			if wf == nil {
 				continue
 			}
-			lenOK64, lenOK1, reOK := false, false, false
-			for _, cmp := range an.CmpsAt(r.Block()) {
-				oc, ok := cmp.Oriented(func(x ssa.Value) bool { a := lenArgOf(x); return a != nil && isParam(a, fn, 0) })
-				if !ok {
-					continue
-				}
-				k, isC := an.ConstInt(oc.Y)
-				if !isC {
-					continue
-				}
-				if (oc.Op == token.LEQ && k == 64) || (oc.Op == token.LSS && k == 65) {
-					lenOK64 = true
-				}
-				if (oc.Op == token.GEQ && k == 1) || (oc.Op == token.GTR && k == 0) {
-					lenOK1 = true
+			d := wf
+			for _, r := range an.Returns(wf) {
+				if call, ok := an.Strip(an.Resolve(r.Results[0])).(*ssa.Call); ok {
+					if g := an.StaticCallee(call); g != nil && g.Pkg == wf.Pkg && len(g.Blocks) > 0 && len(call.Call.Args) == 1 && isParam(call.Call.Args[0], wf, 0) {
+						d = g
+					}
 				}
 			}
-			if call, ok := v.(*ssa.Call); ok && an.StdCallee(call, "regexp", "(*Regexp).MatchString") && isParam(call.Call.Args[1], fn, 0) {
-				if u, ok := call.Call.Args[0].(*ssa.UnOp); ok && re != nil && u.X == ssa.Value(re) {
-					reOK = true
+			deciders[d] = true
+			c.OK(wf, w+" is isValidName", wf.Pos(), "decided by "+d.Name())
+		}
+		for fn := range deciders {
+			for _, r := range an.Returns(fn) {
+				v := an.Resolve(r.Results[0])
+				if k, ok := v.(*ssa.Const); ok && k.Value != nil && k.Value.String() == "false" {
+					continue
 				}
+				lenOK64, reOK := false, false
+				for _, cmp := range an.CmpsAt(r.Block()) {
+					oc, ok := cmp.Oriented(func(x ssa.Value) bool { a := lenArgOf(x); return a != nil && isParam(a, fn, 0) })
+					if !ok {
+						continue
+					}
+					k, isC := an.ConstInt(oc.Y)
+					if !isC {
+						continue
+					}
+					if (oc.Op == token.LEQ && k == 64) || (oc.Op == token.LSS && k == 65) {
+						lenOK64 = true
+					}
+				}
+				if call, ok := v.(*ssa.Call); ok && an.StdCallee(call, "regexp", "(*Regexp).MatchString") && isParam(call.Call.Args[1], fn, 0) {
+					if u, ok := call.Call.Args[0].(*ssa.UnOp); ok && re != nil && u.X == ssa.Value(re) {
+						reOK = true
+					}
+				}
+				// the regex's `+` already requires one character: an explicit len >= 1 test is redundant
+				c.Check(lenOK64 && reOK, fn, "valid name: at most 64 chars matching the name regex", r.Pos(), "", sprintf("%s can accept a name without: len<=64 (%v), regex match (%v)", fn.Name(), lenOK64, reOK))
 			}
-			_ = lenOK1 // the regex's `+` already requires one character: the explicit len >= 1 test is redundant
-			c.Check(lenOK64 && reOK, fn, "valid name: at most 64 chars matching the name regex", r.Pos(), "", sprintf("isValidName can accept a name without: len<=64 (%v), regex match (%v)", lenOK64, reOK))
 		}
 		// the regex literal
 		if init := c.P.Func("internal/protocol", "init"); init != nil && re != nil {
@@ -752,19 +772,6 @@ func c09limits(c *an.Ctx) {
 				}
 			})
 			c.Check(lit == `^[.a-zA-Z0-9_-]+(#ephemeral)?$`, init, "name regex literal", init.Pos(), "", "the topic/channel name regex is "+lit+", not ^[.a-zA-Z0-9_-]+(#ephemeral)?$")
-		}
-		for _, w := range []string{"IsValidTopicName", "IsValidChannelName"} {
-			wf := c.Fn("internal/protocol", w)
-			if wf == nil {
-				continue
-			}
-			good := false
-			for _, r := range an.Returns(wf) {
-				if call := an.CallResultOf(an.Resolve(r.Results[0]), fn); call != nil && isParam(call.Call.Args[0], wf, 0) {
-					good = true
-				}
-			}
-			c.Check(good, wf, w+" is isValidName", wf.Pos(), "", w+" does not return isValidName(name)")
 		}
 	}
 }
